@@ -22,6 +22,54 @@ theorem w10v_pad_of_bl17 {t u : Tok} (h : bl17Pad u) (hk : t.kind = u.kind) : w7
   · rw [hk, h]; rfl
   · rw [hk, h.1]; rfl
 
+/-- a padded text leaf with filler is still not number-like -/
+theorem w10v_numOrRange_text {cs : CharSpec} (l lF : List Tok) (hF : FillerIn lF l) (pre post : List Tok)
+    (hl : leafOK cs valKind l = true) (hns : notSingleInt l = true)
+    (hpre : padOK cs pre = true) (hpost : padOK cs post = true)
+    (ts : List Tok) (hs : Spells ts (pre ++ lF ++ post)) (ext : Bool) :
+    numOrRange (α := α) ext ts = none := by
+  induction hF generalizing ts with
+  | same =>
+    obtain ⟨r1, tpost, rfl, hs1, hspost⟩ := hs.append_inv
+    obtain ⟨tpre, tl, rfl, hspre, htl⟩ := hs1.append_inv
+    exact rt_text_not_numeric (α := α) _ hl hns tpre tl tpost htl
+      (padOK_blank (hspre.padOK_of hpre)) (padOK_blank (hspost.padOK_of hpost)) _
+  | ins X w F Y hX hw hFp =>
+    obtain ⟨t1, tpost, rfl, hs1, hspost⟩ := hs.append_inv
+    obtain ⟨tpre, t2, rfl, hspre, hs2⟩ := hs1.append_inv
+    obtain ⟨tX, t3, rfl, hsX, hs3⟩ := hs2.append_inv
+    obtain ⟨tw, t4, rfl, hwk, hwt, hs4⟩ := hs3.cons_inv
+    obtain ⟨tF, tY, rfl, hsF, hsY⟩ := hs4.append_inv
+    obtain ⟨wk, wt⟩ := isSpTok_facts hw
+    have e1 : tpre ++ (tX ++ tw :: (tF ++ tY)) ++ tpost = (tpre ++ tX) ++ [tw] ++ tF ++ (tY ++ tpost) := by simp
+    have e2 : (tpre ++ tX) ++ [tw] ++ (tY ++ tpost) = tpre ++ (tX ++ tw :: tY) ++ tpost := by simp
+    rw [e1, w7v_numOrRange_filler _ _ tw tF _ (by unfold w7vPad isWsComment; rw [hwk, wk]; rfl)
+      (by
+        intro x hx
+        obtain ⟨u, hu, hk, -⟩ := hsF.mem hx
+        exact w10v_pad_of_bl17 (hFp u hu) hk), e2]
+    have hsl : Spells (tX ++ tw :: tY) (X ++ w :: Y) :=
+      hsX.append (Spells.append (ta := [tw]) (a := [w]) (by simp [Spells, Tok.kt, hwk, hwt]) hsY)
+    exact rt_text_not_numeric (α := α) (X ++ w :: Y) hl hns tpre _ tpost hsl
+      (padOK_blank (hspre.padOK_of hpre)) (padOK_blank (hspost.padOK_of hpost)) _
+  | more X w F Y l h0 hX hw hFp ih =>
+    obtain ⟨t1, tpost, rfl, hs1, hspost⟩ := hs.append_inv
+    obtain ⟨tpre, t2, rfl, hspre, hs2⟩ := hs1.append_inv
+    obtain ⟨tX, t3, rfl, hsX, hs3⟩ := hs2.append_inv
+    obtain ⟨tw, t4, rfl, hwk, hwt, hs4⟩ := hs3.cons_inv
+    obtain ⟨tF, tY, rfl, hsF, hsY⟩ := hs4.append_inv
+    obtain ⟨wk, wt⟩ := isSpTok_facts hw
+    have e1 : tpre ++ (tX ++ tw :: (tF ++ tY)) ++ tpost = (tpre ++ tX) ++ [tw] ++ tF ++ (tY ++ tpost) := by simp
+    have e2 : (tpre ++ tX) ++ [tw] ++ (tY ++ tpost) = tpre ++ (tX ++ tw :: tY) ++ tpost := by simp
+    rw [e1, w7v_numOrRange_filler _ _ tw tF _ (by unfold w7vPad isWsComment; rw [hwk, wk]; rfl)
+      (by
+        intro x hx
+        obtain ⟨u, hu, hk, -⟩ := hsF.mem hx
+        exact w10v_pad_of_bl17 (hFp u hu) hk), e2]
+    have hsl : Spells (tpre ++ (tX ++ tw :: tY) ++ tpost) (pre ++ (X ++ w :: Y) ++ post) :=
+      (hspre.append (hsX.append (Spells.append (ta := [tw]) (a := [w]) (by simp [Spells, Tok.kt, hwk, hwt]) hsY))).append hspost
+    exact ih hl hns _ hsl
+
 /-- `parse_value` on a padded text leaf with filler: the text value of the clean leaf -/
 theorem w10v_parseValue_text (l lF : List Tok) (hF : FillerIn lF l) (pre post : List Tok) (s : BP α)
     (hsp : s.cs.uws ' ' = true) (hl : leafOK s.cs valKind l = true) (hns : notSingleInt l = true)
@@ -29,31 +77,8 @@ theorem w10v_parseValue_text (l lF : List Tok) (hF : FillerIn lF l) (pre post : 
     (ts : List Tok) (hs : Spells ts (pre ++ lF ++ post)) (off : Nat) (hrun : RunAt off ts) :
     parseValue ts s = (⟨(AVal.text l).denote, ⟨valStart ts s, offAt s.toks s.cur⟩⟩, s) := by
   obtain ⟨h1, h2⟩ := bl17_leaf_text (cs := s.cs) hs hpre hpost hl hF hsp (valStart ts s)
-  have hnn : numOrRange (α := α) (s.ext.has Gen.EXT_RANGE_VALUES) ts = none := by
-    cases hF with
-    | same =>
-      obtain ⟨r1, tpost, rfl, hs1, hspost⟩ := hs.append_inv
-      obtain ⟨tpre, tl, rfl, hspre, htl⟩ := hs1.append_inv
-      exact rt_text_not_numeric (α := α) l hl hns tpre tl tpost htl
-        (padOK_blank (hspre.padOK_of hpre)) (padOK_blank (hspost.padOK_of hpost)) _
-    | ins X w F Y hX hw hFp =>
-      obtain ⟨t1, tpost, rfl, hs1, hspost⟩ := hs.append_inv
-      obtain ⟨tpre, t2, rfl, hspre, hs2⟩ := hs1.append_inv
-      obtain ⟨tX, t3, rfl, hsX, hs3⟩ := hs2.append_inv
-      obtain ⟨tw, t4, rfl, hwk, hwt, hs4⟩ := hs3.cons_inv
-      obtain ⟨tF, tY, rfl, hsF, hsY⟩ := hs4.append_inv
-      obtain ⟨wk, wt⟩ := isSpTok_facts hw
-      have e1 : tpre ++ (tX ++ tw :: (tF ++ tY)) ++ tpost = (tpre ++ tX) ++ [tw] ++ tF ++ (tY ++ tpost) := by simp
-      have e2 : (tpre ++ tX) ++ [tw] ++ (tY ++ tpost) = tpre ++ (tX ++ tw :: tY) ++ tpost := by simp
-      rw [e1, w7v_numOrRange_filler _ _ tw tF _ (by unfold w7vPad isWsComment; rw [hwk, wk]; rfl)
-        (by
-          intro x hx
-          obtain ⟨u, hu, hk, -⟩ := hsF.mem hx
-          exact w10v_pad_of_bl17 (hFp u hu) hk), e2]
-      have hsl : Spells (tX ++ tw :: tY) (X ++ w :: Y) :=
-        hsX.append (Spells.append (ta := [tw]) (a := [w]) (by simp [Spells, Tok.kt, hwk, hwt]) hsY)
-      exact rt_text_not_numeric (α := α) (X ++ w :: Y) hl hns tpre _ tpost hsl
-        (padOK_blank (hspre.padOK_of hpre)) (padOK_blank (hspost.padOK_of hpost)) _
+  have hnn : numOrRange (α := α) (s.ext.has Gen.EXT_RANGE_VALUES) ts = none :=
+    w10v_numOrRange_text l lF hF pre post hl hns hpre hpost ts hs _
   rw [parseValue_text_run _ s hrun hnn h2, h1]
   rfl
 
